@@ -841,7 +841,7 @@ def observe_pair(ctx, a, b, finds, cases, case_meta, seen_pairs):
              sample={"a": a.s, "b": b.s, "classes": [top_cls(a.bp), top_cls(b.bp)], "eq": eq, "hash_eq": a.h == b.h,
                      "unify": un})
     # model comparison: every non-trivial pair, every pair of the thorough tier, a seeded sample of the rest
-    emit = nontrivial or ctx.tier == "thorough" or a.idx == b.idx or ctx.rng.random() < 0.3
+    emit = nontrivial or ctx.tier == "thorough" or a.idx == b.idx or ctx.rng.random() < 0.2
     if emit and (a.idx, b.idx) not in seen_pairs:
         seen_pairs.add((a.idx, b.idx))
         parts = ["Bool.eqb (eq_m_s repr_m s%d s%d t%d t%d) %s" % (a.idx, b.idx, a.idx, b.idx, vf.coq_bool(eq))]
@@ -911,7 +911,7 @@ def run_pairs(ctx):
         observe_pair(ctx, b, a, finds, cases, meta, seen)
 
     # ---- random terms and near copies
-    nrand = ctx.n(1200, 15000)
+    nrand = ctx.n(700, 15000)
     rnd = []
     for _ in range(nrand):
         bp = rand_bp(rng, rng.choice([1, 2, 2, 3]))
@@ -1123,6 +1123,46 @@ def run_witnesses(ctx):
         ctx.notes.append("Findings.v no longer compiles (recorded, not a violation): " + o[-500:])
 
 
+def _tuplify(x):
+    return tuple(_tuplify(e) for e in x) if isinstance(x, list) else x
+
+
+def run_replay(ctx, rep):
+    """re-run one recorded input: blueprints a, b (, c) through the public constructors, or an engine pair x, y"""
+    install_spy()
+    finds = Findings()
+    if "x" in rep and "y" in rep:
+        global ENGINE_TEXTS
+        ENGINE_TEXTS = sorted({rep["x"], rep["y"]})
+        run_engine(ctx)
+        return
+    items, cases, meta, seen = [], [], [], set()
+    its = []
+    for k in ("a", "b", "c"):
+        if k in rep:
+            it = collect(ctx, items, build(_tuplify(rep[k])), "ctor:replay")
+            if it is None:
+                ctx.broken.append("harness:replay input %s is outside the modelled domain" % k)
+                return
+            its.append(it)
+    for a in its:
+        for b in its:
+            observe_pair(ctx, a, b, finds, cases, meta, seen)
+    if len(its) == 3:
+        a, b, c = its
+        if a.obj == b.obj and b.obj == c.obj and not (a.obj == c.obj):
+            finds.add("transitivity", classify_trans(a, b, c), 0,
+                      "== is not transitive: %s == %s == %s but the first differs from the third" % (desc(a), desc(b), desc(c)),
+                      {"a": a.bp, "b": b.bp, "c": c.bp})
+    for it in items:
+        cases.append("(wf t%d) && (hkey_eqb (hk NH t%d) %s)" % (it.idx, it.idx, coq_key(it.key)))
+        meta.append(("term", it, None))
+    bad = coq_eval(ctx, items, cases)
+    for i in bad:
+        ctx.broken.append("correspondence:ModelTermEq vs problog.logic on replayed input (case %d: %s)" % (i, cases[i][:200]))
+    finds.report(ctx)
+
+
 def run(ctx):
     ctx.cov["rule"] = ("ordered pairs of (i) a bounded-exhaustive pool of constructor-built terms (atoms, quoted atoms, "
                        "Constant int/float/str, Var, Not with \\+/not, And/Or/Clause/AggTerm/AD, lists, long argument "
@@ -1144,8 +1184,8 @@ def run(ctx):
     generate(ctx)
     ctx.prove("C18/Props.v")
     if ctx.replay:
-        rep = ctx.replay.get("replay", {})
-        ctx.notes.append("replay: re-running the full deterministic check (seeded) covers %r" % (rep.get("str"),))
+        run_replay(ctx, ctx.replay.get("replay", {}))
+        return
     run_witnesses(ctx)
     run_pairs(ctx)
     run_engine(ctx)
